@@ -13,6 +13,10 @@ from .. import meshspace as ms
 from ..topo import Topo, REF
 
 ID = 'C11'
+# sub-checks added after the seeded-change waves (DESIGN.md sections 5 and 6)
+EXTENSIONS = [
+    'second-order twins; relabelled prism extrusions; periodic meshes; meshes from the named constructors (init_*); node partition over every node',
+]
 LEVEL = 'model_checking'
 TECHNIQUE = "explicit-state BFS over mesh numberings (deviation-bounded) with a state invariant vs a set model"
 LEVEL_TEXT = ("Explicit-state exploration: states are meshes reachable from 25 irregular seeds of all 6 cell types by "
